@@ -57,6 +57,29 @@ Theorem C13_obs_eq :
 Proof. exact restored_observables. Qed.
 Print Assumptions C13_obs_eq.
 
+(* the same, starting from the normalised dataset of a document (MerklizeJSONLD with or
+   without WithHasher, fresh tree): for all merklized documents, every map order *)
+Theorem C13_roundtrip_document :
+  forall (T : tparams) (json_ok : string -> bool) (Hd : hasher) (F : floats) (cfg0 : option hasher)
+         (ds : dataset) (m0 : mz),
+  merklize_ds T Hd F cfg0 None ds = Ok m0 ->
+  forall pi : list (Z * rdf_entry), Permutation pi (mz_entries m0) ->
+  forall (src comp : string) (safe : bool) (Hd' : hasher) (cfg : option hasher) (inlen : Z),
+  hasher_or Hd' cfg = hasher_or Hd cfg0 ->
+  json_ok comp = true ->
+  Z.of_nat (List.length (mz_entries m0)) <= inlen ->
+  exists w, marshal T pi (mkmzx m0 src comp safe) = Ok w /\
+    unmarshal T Hd' json_ok cfg None inlen w =
+    Ok (mkmzx (mkmz pi (mz_tree m0) (hasher_or Hd cfg0)) src comp safe) /\
+    mz_root T (mkmz pi (mz_tree m0) (hasher_or Hd cfg0)) = mz_root T m0 /\
+    Permutation (mz_entries (mkmz pi (mz_tree m0) (hasher_or Hd cfg0))) (mz_entries m0) /\
+    forall (Hd'' : hasher) (p : path),
+      mz_entry Hd'' (mkmz pi (mz_tree m0) (hasher_or Hd cfg0)) p = mz_entry Hd'' m0 p /\
+      mz_jsonld_type Hd'' (mkmz pi (mz_tree m0) (hasher_or Hd cfg0)) p = mz_jsonld_type Hd'' m0 p /\
+      mz_proof T Hd'' (mkmz pi (mz_tree m0) (hasher_or Hd cfg0)) p = mz_proof T Hd'' m0 p.
+Proof. exact roundtrip_document. Qed.
+Print Assumptions C13_roundtrip_document.
+
 (* a member path of the restored merklizer gets an existence proof that verifies
    against the (same) root, with the entry's value under the merklizer's hasher *)
 Theorem C13_member_proof :
